@@ -2,6 +2,7 @@ package antispam
 
 import (
 	"fmt"
+	"math"
 	"sync"
 	"time"
 
@@ -174,8 +175,10 @@ func (a *Antispammer) IsSpam(id string, name string, isNewSource bool, event []b
 	if diff < a.maintenanceInterval.Nanoseconds() {
 		x = src.counter.Inc()
 	}
-	if x == int32(threshold) {
-		src.counter.Swap(int32(a.unbanIterations * threshold))
+	// the counter is 32 bits wide, a threshold is an int (fd multiplies the configured rate by the maintenance interval):
+	// compare in int, so that a large threshold is never truncated to a small or negative one
+	if int(x) == threshold {
+		src.counter.Swap(clampInt32(a.unbanIterations * threshold))
 		a.activeMetric.Set(1)
 		a.banMetric.WithLabelValues(name).Inc()
 		a.logger.Warn("source has been banned",
@@ -186,7 +189,14 @@ func (a *Antispammer) IsSpam(id string, name string, isNewSource bool, event []b
 		)
 	}
 
-	return x >= int32(threshold)
+	return int(x) >= threshold
+}
+
+func clampInt32(v int) int32 {
+	if v > math.MaxInt32 {
+		return math.MaxInt32
+	}
+	return int32(v)
 }
 
 func (a *Antispammer) Maintenance() {
@@ -223,7 +233,7 @@ func (a *Antispammer) Maintenance() {
 			x = a.unbanIterations * threshold
 		}
 
-		source.counter.Swap(int32(x))
+		source.counter.Swap(clampInt32(x))
 	}
 
 	if allUnbanned {
